@@ -11,6 +11,7 @@ Strings are hex of their UTF-8 bytes (`-` = empty string). Lists use `,` / `;`, 
   route <n> <day|month|year>                     shard / family groups of the current batch
   routep <n> <day|month|year> <present s,s,…|->  the same through databaseChannel.Write with only these shard channels
   evict <behind> <ahead> <stale|-> | off1 off2 … fresh batch of rows with ts = now+off, evict, write
+  ifields <maxFields> <maxFieldName> | key:value:pint:pfloat …   field section of an influx line
 
   <metric> = nil | n=<s> ns=<s> ts=<int> tags=<k:v|nil,…> f=<name:type:val|nil,…> cf=<-|min:max:sum:count:v;v;…:b;b;…>
   val = <int> | nan | +inf | -inf
@@ -18,6 +19,7 @@ Strings are hex of their UTF-8 bytes (`-` = empty string). Lists use `,` / `;`, 
 import LinVerif.Util.Proto
 import LinVerif.Model.Route
 import LinVerif.Model.Hash64
+import LinVerif.Model.InfluxField
 import LinVerif.Generated.C16
 
 namespace LinVerif.Driver.C16
@@ -287,6 +289,26 @@ def step (st : St) (ws : List String) : St × String :=
         let d := deliver (fun s => present.contains s) gs
         (st, s!"groups {showGroups d.1} err={if d.2 then 1 else 0}")
       else (st, "bad-jump")
+    | _, _, _ => (st, "bad-op")
+  | "ifields" :: mf :: mn :: "|" :: toks =>
+    -- ifields <maxFields> <maxFieldName> | key:value:parseInt:parseFloat …   (strconv results supplied by the harness)
+    let tok? (w : String) : Option (String × String × Option Int × Option F) :=
+      match w.splitOn ":" with
+      | [k, v, pi, pf] => do
+        let k ← str? k
+        let v ← str? v
+        let pi ← if pi = "-" then some none else pi.toInt?.map some
+        let pf ← if pf = "-" then some none else (f? pf).map some
+        some (k, v, pi, pf)
+      | _ => none
+    match mf.toNat?, mn.toNat?, toks.mapM tok? with
+    | some mf, some mn, some ts =>
+      let E : InfluxField.Strconv :=
+        { parseInt := fun s => (ts.find? (fun t => InfluxField.dropLast t.2.1 == s && t.2.2.1.isSome)).bind (fun t => t.2.2.1)
+          parseFloat := fun s => (ts.find? (fun t => t.2.1 == s)).bind (fun t => t.2.2.2) }
+      match InfluxField.lineFields E mf mn (ts.map (fun t => (t.1, t.2.1))) with
+      | .rejected => (st, "rejected")
+      | .stored fs => (st, "stored " ++ showList "," (fs.map (fun f => s!"{showStr f.name}:{f.ftype}:{showF f.value}")))
     | _, _, _ => (st, "bad-op")
   | "evict" :: b :: a :: m :: "|" :: offs =>
     match b.toInt?, a.toInt?, marks? m, Proto.intList? offs with
